@@ -1485,6 +1485,12 @@ def core_specs():
     c.append({"t": "C", "tree": N("tanh", N("negative", N("broadcast_to", L(0)))), "leaves": ["dF"]})
     c.append({"t": "C", "tree": N("subtract", N("broadcast_to", L(0)), L(1)), "leaves": ["dF", "sF"]})
     c.append({"t": "C", "tree": N("sum", N("fabs", N("broadcast_to", L(0), v=1)), v=1), "leaves": ["dF"]})
+    # ---- parametrised unary ufuncs inside extracted views: the op object (slope, alpha, min/max ...) is run-time state of the view and
+    #      must travel with the extracted function (non-default values are drawn by the sampler)
+    c.append({"t": "C", "tree": N("leaky_relu", L(0), v=1), "leaves": ["dF"]})
+    c.append({"t": "C", "tree": N("hardtanh", N("add", L(0), L(1)), v=1), "leaves": ["dF", "dF"]})
+    c.append({"t": "C", "tree": N("add", N("multiply", N("elu", L(0), v=1), L(1)), L(2)), "leaves": ["dF", "dF", "sF"]})
+    c.append({"t": "C", "tree": N("celu", N("transpose", L(0)), v=1), "leaves": ["dF"]})
     # ---- single functors: several attributes (same and different types), n-ary operand splits, attributes after curried operands
     c.append({"t": "A", "f": "sum", "v": 2, "leaves": ["dF"]})
     c.append({"t": "A", "f": "hardtanh", "v": 1, "leaves": ["dF"]})
@@ -1505,6 +1511,12 @@ def core_specs():
     c.append({"t": "B", "chain": [{"f": "matmul", "v": 0}, {"f": "bury1", "v": 0}, {"f": "transpose", "v": 1}], "leaves": ["dF", "dF"]})
     c.append({"t": "B", "chain": [{"f": "reshape", "v": 0}, {"f": "divide", "v": 0}, {"f": "add", "v": 0}, {"f": "fabs", "v": 0}], "leaves": ["dF", "dF", "dF"]})
     c.append({"t": "B", "chain": [{"f": "where", "v": 0}, {"f": "isfinite", "v": 0}], "leaves": ["dF", "dF", "dF"]})
+    # combinators over four operands (bury_n<3> / dig_n<3>: the first arity at which 'bury = dig twice' and similar shortcuts break)
+    c.append({"t": "A", "f": "bury3", "v": 0, "leaves": ["dF", "dF", "dF", "dF"]})
+    c.append({"t": "A", "f": "dig3", "v": 0, "leaves": ["dF", "dF", "dF", "dF"]})
+    c.append({"t": "B", "chain": [{"f": "subtract", "v": 0}, {"f": "add", "v": 0}, {"f": "multiply", "v": 0}, {"f": "bury3", "v": 0}], "leaves": ["dF", "dF", "dF", "dF"]})
+    c.append({"t": "B", "chain": [{"f": "subtract", "v": 0}, {"f": "divide", "v": 0}, {"f": "add", "v": 0}, {"f": "dig3", "v": 0}], "leaves": ["dF", "dF", "dF", "dF"]})
+    c.append({"t": "B", "chain": [{"f": "subtract", "v": 0}, {"f": "multiply", "v": 0}, {"f": "bury2", "v": 0}], "leaves": ["dF", "dF", "dF"]})
     return c
 
 
